@@ -114,6 +114,19 @@ def empty_matrix():
     return out
 
 
+def layout_core():
+    """comment-free programs in the sub-language of the text model (Text.v) whose text depends on each
+    parameter of the tabwriter as ast.NewBufferWriter configures it (padding, tab width at the
+    boundaries 7 / 8 / 9 through the unindented anonymous member with a tag, rune widths)"""
+    return ['type T {\n\tFoo1234 `json:"a"`\n\tB int\n}\n', 'type T {\n\tFoo12345 `json:"a"`\n\tB int\n}\n',
+            'type T {\n\tFoo123456 `json:"a"`\n\tB int\n\tCc, D string `x:"y"`\n}\n',
+            'type (\n\tT {\n\t\t*Foo12345 `json:"a"`\n\t\tB int\n\t}\n\tU {}\n)\n',
+            'info (\n\ta: "x"\n\tlonger_key: "y"\n\tb: `z`\n)\n',
+            'type T {\n\tA string `json:"é"`\n\tBcdef map[string]int `x:"日本"`\n\tC, D []*T\n}\n',
+            '@server (\n\tprefix: /api/v1\n\tt: 1h30m\n\tmiddleware: A,B\n)\nservice s-api {\n\t@doc (\n\t\ta: "µ"\n\t\tlonger: "y"\n\t)\n'
+            '\t@handler h\n\tget /a/:id (T) returns ([]*T)\n\n\t@handler g\n\tpost /\n}\n']
+
+
 LEX_WORDS = ["type", "service", "info", "get", "returns", "import", "syntax", "group", "prefix", "jwt", "middleware",
              "timeout", "maxBytes", "api", "map", "any", "interface", "post", "handler", "doc", "server", "string",
              "struct", "func", "go", "T"]
